@@ -2,3 +2,4 @@ SPECIFICATION Spec
 INVARIANT LostNeverRegular
 INVARIANT EmitCases
 CHECK_DEADLOCK FALSE
+CONSTRAINT SqAtMostOnce
